@@ -157,6 +157,10 @@ var denyPrefixes = []string{
 
 // functions inside denied packages that are plain Go and may run from their SSA
 var allowFuncs = map[string]bool{
+	"(*fmt.wrapError).Error":     true,
+	"(*fmt.wrapError).Unwrap":    true,
+	"(*fmt.wrapErrors).Error":    true,
+	"(*fmt.wrapErrors).Unwrap":   true,
 	"os.IsNotExist":              true,
 	"os.IsExist":                 true,
 	"os.IsPermission":            true,
